@@ -544,7 +544,8 @@ class C19Run(qsrun.QsRun):
         a = {"jobid": st[3]["jobid"]}
         r = rng.random()
         if r < 0.55:
-            res = {"url": f"http://cache.example.org/{rng.randrange(1000)}/output.x", "size": rng.randrange(10 ** 7)}
+            res = {"url": f"http://cache.example.org/{rng.randrange(1000)}/output.x",
+                   "size": rng.choice([0, rng.randrange(10 ** 7), rng.randrange(10 ** 7)])}
             if rng.random() < 0.8:
                 res["suggested_filename"] = gen_filename(rng)
             a["result"] = res
